@@ -52,6 +52,7 @@ class Lift:
     key: str           # method name or let name
     k: int
     sig: str           # `fn lift_x(a: T) -> (r: U) requires .. ensures ..`
+    args: str = ""     # explicit call arguments (`with (&a, b)`), default: the parameter names
 
 
 @dataclass
@@ -184,10 +185,10 @@ def parse(path: str) -> UnitSpec:
             m = re.match(r"^([A-Za-z_][A-Za-z0-9_]*)(?:#(\d+))?\s+(.*)$", rest, re.S)
             cur.after_let.append((m.group(1), int(m.group(2) or 1), m.group(3)))
         elif head == "lift":
-            m = re.match(r"^(chain|let)\s+([A-Za-z_][A-Za-z0-9_]*)(?:#(\d+)|\s+(\d+))?\s+as\s+(.*)$", rest, re.S)
+            m = re.match(r"^(chain|let)\s+([A-Za-z_][A-Za-z0-9_]*)(?:#(\d+)|\s+(\d+))?\s+(?:with\s+\((.*?)\)\s+)?as\s+(.*)$", rest, re.S)
             if not m:
                 raise SpecError(f"{path}:{ln}: bad lift entry")
-            cur.lifts.append(Lift(m.group(1), m.group(2), int(m.group(3) or m.group(4) or 1), m.group(5).strip()))
+            cur.lifts.append(Lift(m.group(1), m.group(2), int(m.group(3) or m.group(4) or 1), m.group(6).strip(), (m.group(5) or "").strip()))
         elif head == "subst":
             a, _, b = rest.partition("=>")
             cur.substs.append((a.strip(), b.strip()))
